@@ -109,6 +109,9 @@ ResolverInv.vos ResolverInv.vok ResolverInv.required_vos: ResolverInv.v Base.vos
 BrowserInv.vo BrowserInv.glob BrowserInv.v.beautified BrowserInv.required_vo: BrowserInv.v Base.vo Fields.vo SrcFacts.vo Msg.vo SrcDecisions.vo Cache.vo CacheSpec.vo CacheProofs.vo Sim.vo SimProofs.vo Prober.vo Resolver.vo Browser.vo BrowserProofs.vo
 BrowserInv.vio: BrowserInv.v Base.vio Fields.vio SrcFacts.vio Msg.vio SrcDecisions.vio Cache.vio CacheSpec.vio CacheProofs.vio Sim.vio SimProofs.vio Prober.vio Resolver.vio Browser.vio BrowserProofs.vio
 BrowserInv.vos BrowserInv.vok BrowserInv.required_vos: BrowserInv.v Base.vos Fields.vos SrcFacts.vos Msg.vos SrcDecisions.vos Cache.vos CacheSpec.vos CacheProofs.vos Sim.vos SimProofs.vos Prober.vos Resolver.vos Browser.vos BrowserProofs.vos
+BrowserTimers.vo BrowserTimers.glob BrowserTimers.v.beautified BrowserTimers.required_vo: BrowserTimers.v Base.vo Fields.vo SrcFacts.vo Msg.vo SrcDecisions.vo Cache.vo CacheSpec.vo CacheProofs.vo Sim.vo SimProofs.vo Prober.vo Resolver.vo Browser.vo BrowserProofs.vo BrowserInv.vo
+BrowserTimers.vio: BrowserTimers.v Base.vio Fields.vio SrcFacts.vio Msg.vio SrcDecisions.vio Cache.vio CacheSpec.vio CacheProofs.vio Sim.vio SimProofs.vio Prober.vio Resolver.vio Browser.vio BrowserProofs.vio BrowserInv.vio
+BrowserTimers.vos BrowserTimers.vok BrowserTimers.required_vos: BrowserTimers.v Base.vos Fields.vos SrcFacts.vos Msg.vos SrcDecisions.vos Cache.vos CacheSpec.vos CacheProofs.vos Sim.vos SimProofs.vos Prober.vos Resolver.vos Browser.vos BrowserProofs.vos BrowserInv.vos
 Properties_C05.vo Properties_C05.glob Properties_C05.v.beautified Properties_C05.required_vo: Properties_C05.v Base.vo Fields.vo SrcFacts.vo Msg.vo SrcDecisions.vo Cache.vo CacheSpec.vo CacheProofs.vo
 Properties_C05.vio: Properties_C05.v Base.vio Fields.vio SrcFacts.vio Msg.vio SrcDecisions.vio Cache.vio CacheSpec.vio CacheProofs.vio
 Properties_C05.vos Properties_C05.vok Properties_C05.required_vos: Properties_C05.v Base.vos Fields.vos SrcFacts.vos Msg.vos SrcDecisions.vos Cache.vos CacheSpec.vos CacheProofs.vos
